@@ -34,6 +34,12 @@ CONSTRUCTS = [
     ("neg_index", "def entry(a, b):\n    xs = [a, b, 7]\n    return xs[-1] + xs[-3]\n"),
     ("tuple_unpack", "def entry(a, b):\n    p, q = (b, a)\n    t = (p + 1, q + 2)\n    u, v = t\n    return u * 10 + v\n"),
     ("swap", "def entry(a, b):\n    a, b = b, a\n    return a * 10 + b\n"),
+    ("rotate_and_fib", "def entry(a, b):\n    c = a + 1\n    a, b, c = b, c, a\n    x, y = 1, 2\n    x, y = x + y, x\n    y, x = x, y\n    return a * 1000 + b * 100 + c * 10 + x - y\n"),
+    # chained assignments whose value is computed (operator, call, subscript, attribute read), literal or a plain name
+    ("chained_assign", "class K:\n    def __init__(self, v):\n        self.v = v\n\ndef twice(n):\n    return n * 2\n\n"
+                       "def entry(a, b):\n    lo = hi = a - b\n    p = q = twice(a)\n    xs = [a, b, 3]\n    m = n = xs[1]\n    o = K(b)\n    r = s = o.v\n    c = d = 0\n    e = f = a\n"
+                       "    lo = lo + 1\n    q = q + 1\n    n = n + 2\n    s = s + 3\n    d = d + 4\n    f = f + 5\n"
+                       "    print(lo, hi, p, q, m, n, r, s, c, d, e, f)\n    u = v = w = a * b\n    v = v + 1\n    return u * 100 + v * 10 + w\n"),
     ("dict_ops", "def entry(a, b):\n    d = {\"x\": a, \"y\": b}\n    d[\"z\"] = d[\"x\"] + d[\"y\"]\n    d[\"x\"] = 5\n    return d[\"x\"] * 100 + d[\"z\"] + len(d)\n"),
     ("dict_int_keys", "def entry(a, b):\n    d = {1: a, 2: b}\n    d[3] = d[1] - d[2]\n    return d[3] + d[2] * 10\n"),
     ("cond_expr", "def entry(a, b):\n    x = a if a > b else b\n    y = 1 if a else 2\n    return x * 10 + y\n"),
